@@ -134,8 +134,10 @@ def gen_enum(r, idx, hostile):
     # (enum class Shade { RED = 20, DARK = RED + 5 } next to enum class Tint { RED = 1 }); a reference inside an
     # enumeration means its own enumerator
     pool = r.sample(range(8), n) if scoped and r.random() < 0.5 else None
+    # ordinary long identifiers: the Fortran parameter statement of such an enumerator does not fit the line length
+    longn = pool is None and r.random() < 0.2
     for i in range(n):
-        name = "M%d_%d" % (idx, i) if pool is None else "S%d" % pool[i]
+        name = ("M%d_%d" % (idx, i) + ("_reset_to_the_lowest_allowed_setpoint_offset"[: r.randint(20, 44)] if longn else "")) if pool is None else "S%d" % pool[i]
         if mask >> i & 1 and r.random() < 0.3:
             text, v = gen_pattern(r, earlier)
             cur = v
@@ -219,6 +221,7 @@ def harvest_f(texts):
     for t in texts:
         mod = None
         cur = None
+        t = re.sub(r"&[ \t]*\n[ \t]*&?[ \t]*", " ", t)         # continued statements
         for ln in t.split("\n"):
             m = re.match(r"\s*module\s+(\w+)\s*$", ln)
             if m:
@@ -334,7 +337,10 @@ def run_library(case):
         open(os.path.join(out, "fprog.f90"), "w").write("\n".join(src) + "\n")
         # order modules: namespace modules first (library module may use them)
         order = sorted(ffiles, key=lambda f: (0 if "_" in f[len("wrapf"):] else 1, f))
-        rc, so, se = sh(["gfortran", "-cpp", "-ffree-form", "-w", "-c"] + order + ["fprog.f90"], out)
+        # the generated modules are compiled as Shroud's users compile them (132 columns); only the harness program is exempt
+        rc, so, se = sh(["gfortran", "-cpp", "-ffree-form", "-w", "-c"] + order, out)
+        if rc == 0:
+            rc, so, se = sh(["gfortran", "-ffree-form", "-ffree-line-length-none", "-w", "-c", "fprog.f90"], out)
         fvals = {}
         if rc != 0:
             res["violations"].append({"mech": "generated-fortran-module-does-not-compile:" + _first_error(se),
@@ -363,7 +369,7 @@ def run_library(case):
                         if vals[key] != want:
                             # a member that only inherits a wrong value (implicit successor of, or expression
                             # over, an already wrong member) is the same defect, not a new one
-                            refs = set(re.findall(r"\b(?:M\d+_\d+|S\d+)\b", t or ""))
+                            refs = set(re.findall(r"\b(?:M\d+_\d+\w*|S\d+)\b", t or ""))
                             prev_wrong = (t is None and wrong) or (refs & wrong)
                             wrong.add(n)
                             if prev_wrong:
@@ -422,7 +428,8 @@ def classify(e, member):
 
 
 def shape(e):
-    return "%s%s/%d/%s" % (e["scoped"] or "plain", "+shared" if any(n.startswith("S") for n, _ in e["members"]) else "", len(e["members"]),
+    return "%s%s%s/%d/%s" % (e["scoped"] or "plain", "+shared" if any(n.startswith("S") for n, _ in e["members"]) else "",
+                             "+long" if any(len(n) > 25 for n, _ in e["members"]) else "", len(e["members"]),
                          "".join("x" if t is not None else "." for _, t in e["members"])) + "/" + e.get("where", "")
 
 
